@@ -2,6 +2,7 @@
 import json, os, subprocess
 from . import common as C
 from . import semchecks as SC
+from . import simple as SP
 
 CHECKS = {}
 
@@ -19,14 +20,14 @@ def load_replay(path):
 
 
 def sem_check(prop, tier, replay, opts, kinds_sem=(), pairs=(), use_bad=False, use_fails=None, level="model_checking",
-              rule="", assumptions=(), want=("sem",), trace_every=0, max_traces=3000, families=None, extra=None, vm_every=1):
+              rule="", assumptions=(), want=("sem",), trace_every=0, max_traces=3000, families=None, extra=None, vm_every=1, vm_env=None):
     v = C.Verdict(prop, tier)
     rc = None
     if replay:
         rp = load_replay(replay)
         rc = [rp["case"]]
     R = SC.run_sem(prop, tier, v, opts=opts, replay_cases=rc, want=want, trace_every=trace_every,
-                   max_traces=max_traces, families=families, vm_every=vm_every)
+                   max_traces=max_traces, families=families, vm_every=vm_every, vm_env=vm_env)
     samples = SC.classify(prop, R, v, kinds_sem=kinds_sem, pairs=pairs, use_bad=use_bad, use_fails=use_fails)
     cov = SC.coverage(R, samples, rule)
     if R.get("cost_ratio"):
@@ -92,10 +93,21 @@ def c13(tier, replay):
                      " Violations: on an all-ASCII haystack an ASCII entry point's sequence differs from the UTF-8 one's.")
 
 
+@check("C04")
+def c04(tier, replay):
+    return sem_check("C04", tier, replay, ["--no-ascii", "--arbitrary"], kinds_sem=("pred",), pairs=SC.PAIRS["C04"],
+                     want=("sem", "vm"), vm_env={"PRED": "1"}, vm_every=2 if tier == "quick" else 1,
+                     rule=SEM_RULE + " The hook rebuilds each program with StartPredicate::Arbitrary and the match sequences from every start "
+                     "offset are compared (both executors); TLC (JudgeVM.tla, PredMismatches) takes the predicate the compiler actually "
+                     "derived from the program dump and checks that it admits every character boundary at which the BacktrackVM "
+                     "specification's anchored attempt on that program succeeds, including offsets after the first match.",
+                     assumptions=["the dumped start predicate is the one the executor uses", "utf16 builds disable the prefilter (not covered here)"])
+
+
 @check("C05")
 def c05(tier, replay):
     return sem_check("C05", tier, replay, ["--no-ascii", "--fuel", "400000"], kinds_sem=("cost", "vm", "traceinv"),
-                     want=("cost", "vm", "trace"), families=["F2"] if tier == "quick" else ["F2", "F3", "F4", "F1"],
+                     want=("cost", "vm", "trace"), families=["F2", "F9"] if tier == "quick" else ["F2", "F3", "F4", "F1", "F1b", "F9"],
                      trace_every=37 if tier == "quick" else 11, max_traces=2500 if tier == "quick" else 30000,
                      use_fails=lambda f: True, extra=trace_notes, vm_every=10 if tier == "quick" else 1,
                      rule="TLC enumerates the nested-quantifier family F2 (thorough: F1-F4) and all haystacks up to the bound; the runner "
@@ -140,7 +152,7 @@ def c06(tier, replay):
         trace_notes(R, v, cov)
 
     return sem_check("C06", tier, replay, [], kinds_sem=("event", "traceinv"), use_bad=True, use_fails=lambda f: True,
-                     want=("sem", "trace"), families=["F1", "F4", "F6", "F7"] if tier == "quick" else ["F1", "F2", "F3", "F4", "F5", "F6", "F7", "F8"],
+                     want=("sem", "trace"), families=["F1", "F4", "F6", "F7", "F9"] if tier == "quick" else SC.ALLF,
                      trace_every=23 if tier == "quick" else 5, max_traces=4000 if tier == "quick" else 50000,
                      extra=checked_build,
                      rule="TLC enumerates the families (haystacks mix 1-, 2-, 3- and 4-byte characters at both ends, the empty haystack "
@@ -152,6 +164,103 @@ def c06(tier, replay):
                      "assertions and overflow checks.",
                      assumptions=["undefined behaviour that leaves every observable position valid is not visible",
                                   "memchr is trusted"])
+
+
+@check("C16")
+def c16(tier, replay):
+    return sem_check("C16", tier, replay, ["--no-ascii", "--api"], kinds_sem=("api",), want=("sem", "api"),
+                     level="model_checking",
+                     rule="TLC enumerates the named/duplicate-named group family F10 (plus the capture families F3, F4) and all "
+                     "haystacks up to the bound; for every match of every iteration the runner records captures, group(0..n+1), groups(), "
+                     "named_group(name) for every name of the pattern plus an absent one and the empty string, named_groups() and the "
+                     "size hints; TLC (JudgeApi.tla) requires each to be the MatchAPI.tla function of the observed range and captures "
+                     "and of the names as the specification numbers them; the captures themselves are judged against ESSem. "
+                     "Non-trivial: every recorded match.",
+                     assumptions=["names are compared as code point sequences"])
+
+
+def cps_str(cps):
+    return "".join(chr(c) if 32 <= c < 127 else "\\u{%X}" % c for c in cps)
+
+
+@check("C17")
+def c17(tier, replay):
+    v = C.Verdict("C17", tier)
+    work = C.fresh_dir(os.path.join(C.OUT, "work", "C17"))
+    if replay:
+        rp = load_replay(replay)
+        cases = os.path.join(work, "cases.ndjson")
+        with open(cases, "w") as f:
+            f.write(json.dumps(rp["case"]) + "\n")
+    else:
+        cases = SP.gen("GenReplace", tier, work)
+    R = SP.pipeline("C17", tier, "replace", cases, "JudgeReplace", "replacestat")
+    samples = []
+    for j in R["jlines"]:
+        if j["kind"] == "replace":
+            r = SP.record_of(R["obs"], j["id"])
+            what = "%s(/%s/%s, %r, template %r): expected %r, got %r" % (j["fn"], r["pats"], r["flags"], cps_str(r["hays"][j["h"]]),
+                                                                     cps_str(j["tpl"]), cps_str(j["exp"]), cps_str(j["got"]))
+            case = {k: r[k] for k in ("fam", "ng", "names", "fl")}
+            case["ast"] = json.loads(open(R["cases"]).readlines()[j["id"]])["ast"]
+            case["hays"] = [r["hays"][j["h"]]]
+            case["templates"] = [j["tpl"]] if j["tpl"] else r["templates"][:1]
+            v.violation(what, {"pipeline": "replace", "case": case, "fn": j["fn"], "expected": j["exp"], "observed": j["got"]})
+    for st in R["stats"][:2]:
+        r = SP.record_of(R["obs"], st["id"])
+        samples.append({"pattern": r["pats"], "haystack": cps_str(r["hays"][0]), "template": cps_str(r["templates"][min(7, len(r["templates"]) - 1)]),
+                        "replace_all": cps_str(r["out"][0]["replace_all"][min(7, len(r["templates"]) - 1)])})
+    for c in R["crashes"]:
+        v.violation("process died (rc=%s) on case %d" % (c["rc"], c["case"]), {"pipeline": "replace", "case_index": c["case"]})
+    cov = {"evaluations": sum(s["outputs"] for s in R["stats"]), "distinct_nontrivial": sum(s["withmatch"] for s in R["stats"]),
+           "states": R["states"], "transitions": R["generated"], "exhaustive": True, "samples": samples,
+           "rule": "TLC enumerates every template up to length %d over the symbol alphabet {$ 0 1 2 (9) { } n (m) x e-acute} for six regexes "
+                   "(no match, optional group, duplicate-named groups, empty matches at multi-byte characters, named groups, names in "
+                   "different alternatives) x two haystacks; the runner records replace/replace_all for each and replace_with/"
+                   "replace_all_with for the identity and a constant closure; TLC (JudgeReplace.tla) recomputes each output with "
+                   "Replace.tla from the engine's own find_iter sequence. evaluations = output strings judged; non-trivial = outputs for "
+                   "haystacks with at least one match; distinct by construction." % (4 if tier == "quick" else 5)}
+    return v.finish("exploration", cov, ["digit runs are parsed maximally (the code's documented template language); runs longer than 5 digits are not generated",
+                                         "the match sequence is the engine's own (its correctness is C01/C09)"])
+
+
+@check("C18")
+def c18(tier, replay):
+    v = C.Verdict("C18", tier)
+    work = C.fresh_dir(os.path.join(C.OUT, "work", "C18"))
+    if replay:
+        rp = load_replay(replay)
+        cases = os.path.join(work, "cases.ndjson")
+        with open(cases, "w") as f:
+            f.write(json.dumps(rp["case"]) + "\n")
+    else:
+        cases = SP.gen("GenEscape", tier, work)
+    R = SP.pipeline("C18", tier, "escape", cases, "JudgeEscape", "escapestat", parts=8)
+    kf = {f["id"]: f for f in C.load_known_findings()["findings"] if "C18" in f["properties"] or "C10" in f["properties"]}
+    for j in R["jlines"]:
+        if j["kind"] == "escape":
+            if j.get("dev") and j["dev"][0] in kf and "C18" in kf[j["dev"][0]]["properties"]:
+                v.known_finding(j["dev"][0], kf[j["dev"][0]]["what"])
+                continue
+            r = SP.record_of(R["obs"], j["id"])
+            what = "%s: s=%r escape(s)=%r flags=%s haystack=%r expected %s got %s" % (
+                j["what"], cps_str(r["s"]), cps_str(r["e"]), j["fl"], cps_str(r["hays"][j["h"]]) if r["hays"] else "", j["exp"], j["got"])
+            v.violation(what, {"pipeline": "escape", "case": {"fam": "escape", "s": r["s"], "hays": r["hays"]}, "detail": j})
+    for c in R["crashes"]:
+        v.violation("process died (rc=%s) on case %d" % (c["rc"], c["case"]), {"pipeline": "escape", "case_index": c["case"]})
+    samples = []
+    for st in R["stats"][:3]:
+        r = SP.record_of(R["obs"], st["id"])
+        samples.append({"s": cps_str(r["s"]), "escape": cps_str(r["e"]), "haystack": cps_str(r["hays"][0]), "matches_no_flags": r["res"][0]["m"][0] if r["res"] else None})
+    cov = {"evaluations": sum(s["evals"] for s in R["stats"]), "distinct_nontrivial": sum(s["nontrivial"] for s in R["stats"]),
+           "states": R["states"], "transitions": R["generated"], "exhaustive": True, "samples": samples, "strings": R["ncases"],
+           "rule": "TLC enumerates every string up to length 2 over a 39-symbol alphabet (all 14 syntax characters, punctuation special in "
+                   "class sets / modifiers / group names, escape letters, digits, U+00E9, U+1F600) and up to length 3 over the syntax "
+                   "characters (thorough: length 3 over everything) with seven haystacks built from the string; the runner compiles "
+                   "escape(s) under all 12 flag sets and records every match; TLC (JudgeEscape.tla) checks that escape only inserted "
+                   "backslashes and that the matches are those of the literal AST under ESSem (case-insensitive under i). "
+                   "evaluations = (string, flag set, haystack) triples; non-trivial = strings that escape() had to change."}
+    return v.finish("exploration", cov, ["occurrences are defined by ESSem on the literal AST, i.e. leftmost non-overlapping with the lastIndex rule"])
 
 
 def setup():
